@@ -208,7 +208,7 @@ func runWorkspace(ctx context.Context, rng *hutil.Rng, ws probe.Workspace, procs
 	maxExh := 4
 	nsample := 6
 	if tier != "quick" {
-		nsample = 24
+		nsample = 16
 	}
 	var variants [][]string
 	if n <= maxExh {
@@ -239,13 +239,16 @@ func runWorkspace(ctx context.Context, rng *hutil.Rng, ws probe.Workspace, procs
 		if nperm > 2 {
 			keep = append(keep, variants[1+rng.Below(nperm-2)])
 		}
-		keep = append(keep, variants[nperm:]...)
+		keep = append(keep, variants[nperm]) // the directory argument
 		variants = keep
 	}
 	out.Variants = variants
 
 	// ---- jobs ------------------------------------------------------------------------------
 	reps := 3
+	if !full && procs < 16 && tier == "quick" {
+		reps = 2
+	}
 	var jobs []job
 	for v := range variants {
 		jobs = append(jobs, job{v, 0, false})
@@ -256,6 +259,8 @@ func runWorkspace(ctx context.Context, rng *hutil.Rng, ws probe.Workspace, procs
 	nconc := 3
 	if tier != "quick" {
 		nconc = 4
+	} else if procs < 16 {
+		nconc = 2
 	}
 	for r := 0; r < nconc; r++ {
 		jobs = append(jobs, job{rng.Below(len(variants)), reps + r, true})
@@ -412,8 +417,8 @@ func sizes(tier string, rng *hutil.Rng) []int {
 	if tier == "quick" {
 		return []int{1, 2, 3, 4, 5, 8}
 	}
-	s := []int{1, 1, 2, 2, 2, 2, 3, 3, 3, 3, 3, 4, 4, 4, 4, 5, 5, 5, 6, 6, 7, 8, 8}
-	for len(s) < 28 {
+	s := []int{1, 2, 2, 3, 3, 3, 4, 4, 5, 5, 6, 7, 8}
+	for len(s) < 20 {
 		s = append(s, 2+rng.Below(7))
 	}
 	return s
